@@ -84,6 +84,11 @@ blockScan:
 		}
 	}
 
+	// Check if there is enough space left in the block for the return label.
+	if returnLabelStart+returnLabel.EncodedSize() > len(block) {
+		return 0, ErrBufTooSmall
+	}
+
 	// Add return label at correct position and reverse it.
 	labelSlot := block[returnLabelStart : returnLabelStart+returnLabel.EncodedSize()]
 	binary.PutUvarint(labelSlot, uint64(returnLabel))
